@@ -54,6 +54,14 @@ CHECKS = {
                 text="WriteDiscipline (W1 whole source chunk at one of its offsets, W2 once, W3 never an in-place location, W4 nothing beyond the source) as a rule on every WriteOut step of Clone.tla, model-checked; every write of every replayed scenario on the real code is validated against the same rule by TLC.",
                 note="writes observed at the AsyncWrite boundary of an instrumented in-memory file with content projected to chunk cells",
                 tech="TLA+ spec + TLC; TLC trace validation of every recorded write"),
+    "C14": dict(cat="model_checking", design="6 C14",
+                text="Cli.tla (clone_cmd.rs / compress_cmd.rs step order, open flags, device size check) model-checked over the full mode product (688 modes) for RefusalUntouched and NoCreateOnHeaderRefusal; the real bita process is run once per mode under strace in a fresh directory with arbitrary prior content, and CliTrace.tla requires for every mode Cli.tla's Refusal(m) predicts as refused: non-zero exit, output byte-identical (existence, length, digest), no write/truncate/create on it, and for header/archive refusals no open of the output at all.",
+                note="block devices are regular files behind hook H1; the too-small-device refusal is exercised through it",
+                tech="TLA+ spec + TLC exhaustive over the mode product; one real process per TLC-generated mode observed by strace; TLC trace validation"),
+    "C16": dict(cat="model_checking", design="6 C16",
+                text="Cli.tla's CloneTouchesOnlyOutput and CompressLeavesOnlyArchive model-checked over the mode product; for every mode (plain, seed files, stdin seed, in-place, local and HTTP, with/without verification; compress from file and stdin, with/without --force-create) strace records every open/creat/write/truncate/unlink/rename/link/mkdir of the process tree, projected to file roles, and CliTrace.tla rejects any write-open, creation, truncation, removal or rename of anything but the output (clone) or the archive and its temp file (compress), plus directory listings before/after.",
+                note="observation by strace -f -y; stdio, sockets and eventfds are classified as such",
+                tech="TLA+ spec + TLC exhaustive over the mode product; strace-observed real processes; TLC trace validation"),
 }
 
 NOT_YET = {
@@ -88,7 +96,7 @@ def main():
             "guard": "--cfg oll3_bita_verif",
             "enable": "RUSTFLAGS='--cfg oll3_bita_verif --check-cfg cfg(oll3_bita_verif)' (set by harness/.cargo/config.toml for the harness and by lib/common.py build_cli for the bita binary)",
             "baseline_off_cmd": "cd /repo && cargo test --workspace --no-fail-fast --offline",
-            "source_commits": [],
+            "source_commits": ["6eede4c", "bf54d88"],
             "add_only": True,
         },
         "engines": [{"name": "tla-mbv", "path": "/verif/check", "serves_properties": [c["property_id"] for c in checks],
